@@ -260,7 +260,9 @@ func (r *renderer) annotation(n *Node) string {
 	default:
 		s = " /*" + r.sp.EOL + body + r.sp.EOL + "*/"
 	}
-	if r.sp.Comments == 1 && r.sp.MultiLine != 0 {
+	if r.sp.Comments == 1 {
+		// a user comment may follow an annotation of either form (after an inline
+		// one it ends the rule object / the note text)
 		s += " # c"
 	}
 	return s
